@@ -206,6 +206,21 @@ func runC17(p *Program, r *Result) {
 	}
 
 	// ---- R17.4
+	// ---- R17.6
+	r.Rule("R17.6", "a bare plugin name given with -j reaches the plugin client as it was typed: cmd/age hands the flag's value itself to plugin.NewIdentityWithoutData (a detour through an identity string folds its case: another program would be started)", 1)
+	for _, fn := range p.Funcs {
+		if fn.Pkg == nil || fn.Pkg.Pkg.Path() != pkgCmdAge {
+			continue
+		}
+		ftb := p.TB(fn)
+		for i, c := range callsTo(fn, pkgPlugin+".NewIdentityWithoutData") {
+			t := short(ftb.Term(c.Common().Args[0]).String())
+			verbatim := strings.HasPrefix(t, "Field(") && strings.HasSuffix(t, ".Value)") && !strings.Contains(t, "strings.") && !strings.Contains(t, "plugin.")
+			r.Saw(fn.String())
+			r.Check(verbatim, fn.String(), "bare-name#"+itoa(i), r.pos(c), "the name is the flag value "+t, "the name handed to the plugin client is "+t+", not the value of the -j flag as given")
+		}
+	}
+
 	r.Rule("R17.4", "the name validator accepts exactly the specified character set", 3)
 	{
 		tb := p.TB(vpn)
